@@ -3,7 +3,7 @@
    Add v | Reduce | Advance dt (dt >= 0, arbitrary, also > size*interval) started at creation time
    t0; Spec.reduce_points replays it on the Spec side (clock and add log at every Reduce).
    Shedder: Model.v over two windows; float64 operations abstract (any ewma / floorF / capF). *)
-From God Require Import Base.Prelude C09.RW C09.Spec C09.WProofs C09.Model C09.SProofs C09.Exec.
+From God Require Import Base.Prelude C09.RW C09.Spec C09.WProofs C09.Model C09.SProofs C09.Integ C09.Exec.
 From Coq Require Floats.
 Local Open Scope Z_scope.
 
@@ -105,6 +105,31 @@ Theorem c09_hot_clears_after_1s :
   exists s', allow F floorF capF s now false = (true, s') /\ dropped s' = false.
 Proof. exact hot_clears_after_1s. Qed.
 Print Assumptions c09_hot_clears_after_1s.
+
+(* ---------------- the integrations (SheddingHandler, UnarySheddingInterceptor) ---------------- *)
+(* Both report in a deferred function: `report_rpc` / `report_http` give the report for EVERY outcome
+   of the downstream handler (return, error, deadline, panic), so each request that was let in
+   reports exactly once.  Over a recording shedder: passes + fails = let in after any call list. *)
+Theorem c09_integration_reports_once : forall calls,
+  let c := cnt_run calls in c_pass c + c_fail c = c_in c.
+Proof. exact cnt_conservation. Qed.
+Print Assumptions c09_integration_reports_once.
+
+(* over the adaptive shedder: a request handled through an integration (Allow; if let in, the handler
+   runs `lat` and the integration reports r) leaves the in-flight count where it was, whatever the
+   outcome; so after any sequence of completed requests it is back to its initial value (0) *)
+Theorem c09_integration_inflight_returns : forall (F : Type) (ewma : F -> Z -> F) (floorF : F -> Z) (capF : Z -> Z -> Z)
+  (s : shed F) (calls : list (Z * bool * Z * rep)),
+  flying (int_run F ewma floorF capF s calls) = flying s.
+Proof. exact (fun F ewma floorF capF s calls => int_run_flying F ewma floorF capF calls s). Qed.
+Print Assumptions c09_integration_inflight_returns.
+
+(* what counts as Fail: RPC only context.DeadlineExceeded itself; HTTP only status 503 *)
+Theorem c09_integration_fail_classes :
+  (forall o, report_rpc o = RFail <-> o = RDeadline) /\
+  (forall g s, report_http g s = RFail <-> http_code g s = 503).
+Proof. exact fail_classes. Qed.
+Print Assumptions c09_integration_fail_classes.
 
 (* ---------------- non-vacuity and documented observations ---------------- *)
 
